@@ -319,9 +319,11 @@ struct Engine {
             for (auto& s : frontier)
                 for (auto& e : evs) {
                     bool ok;
+                    const u64 viol_before = res.violation_events;
                     St n = Step(s, e, ok);
                     ++res.evaluations;
-                    if (ok && seen.insert(n).second)
+                    // a violating transition is reported, not expanded
+                    if (ok && res.violation_events == viol_before && seen.insert(n).second)
                         next.push_back(n);
                 }
             frontier.swap(next);
@@ -371,7 +373,7 @@ inline void Run(const Args& args, Result& res) {
     res.property = "C14";
     QuietStdout quiet;
     Engine eng(res);
-    int depth = args.thorough() ? 5 : 4;
+    int depth = args.thorough() ? 6 : 4;
     eng.Explore([](const Event&) { return true; }, depth, "L1_combined");
     bool all_fix = true;
     for (int comp = 0; comp < 8; ++comp) {
